@@ -604,6 +604,33 @@ theorem subsOf'_sset (subs : Subs) (s t : String) (v : List String) :
   simp only [subsOf', sget_sset]
   split <;> simp
 
+/-- Dropping the (empty) heap of a stream nobody is subscribed to changes nothing the invariant
+talks about (fix abd9059: `StreamDeleted` on an empty heap). -/
+theorem inv_drop_empty_heap (parts : String → Nat) (g : Group) (s : String)
+    (h : Inv parts g) (hempty : subsOf' g.subs s = []) :
+    Inv parts { g with subs := sdel g.subs s } := by
+  have hsame : ∀ t, subsOf' (sdel g.subs s) t = subsOf' g.subs t := by
+    intro t
+    rw [subsOf'_sdel]
+    by_cases hts : t = s
+    · subst hts; simp [hempty]
+    · simp [hts]
+  refine ⟨h.nodup, ?_, ?_, h.only, ?_⟩
+  · intro t id hid
+    have hid' : id ∈ subsOf' (sdel g.subs s) t := hid
+    rw [hsame] at hid'
+    exact h.b1 t id hid'
+  · intro x hx t ht
+    rcases h.b2 x hx t ht with h' | h'
+    · left
+      show x.1 ∈ subsOf' (sdel g.subs s) t
+      rw [hsame]; exact h'
+    · exact Or.inr h'
+  · intro t hne
+    have hne' : subsOf' (sdel g.subs s) t ≠ [] := hne
+    rw [hsame] at hne'
+    exact h.d t hne'
+
 /-- `StreamDeleted` preserves the invariant. -/
 theorem inv_streamDeleted (parts : String → Nat) (g g' : Group) (s : String) (e : Nat)
     (h : Inv parts g) (hs : streamDeleted parts g s e = .ok g') : Inv parts g' := by
@@ -613,11 +640,21 @@ theorem inv_streamDeleted (parts : String → Nat) (g g' : Group) (s : String) (
   · cases hg : sget g.subs s with
     | none => simp [hg] at hs; subst hs; exact h
     | some idl =>
-      simp only [hg, Res.ok.injEq] at hs
+      simp only [hg] at hs
+      have hsub : subsOf' g.subs s = idl := by simp [subsOf', hg]
+      by_cases hb : (Gen.Groups.emptyHeapKeepsEpoch && idl.isEmpty) = true
+      · -- empty heap: only the heap entry is dropped
+        simp only [hb, if_true, Res.ok.injEq] at hs
+        subst hs
+        have hidl : idl = [] := by
+          have : idl.isEmpty = true := by
+            simp only [Bool.and_eq_true] at hb; exact hb.2
+          exact List.isEmpty_iff.1 this
+        exact inv_drop_empty_heap parts g s h (by rw [hsub, hidl])
+      simp only [hb, Bool.false_eq_true, if_false, Res.ok.injEq] at hs
       subst hs
       apply inv_epoch
       apply inv_foldl_balance
-      have hsub : subsOf' g.subs s = idl := by simp [subsOf', hg]
       let f : Cons → Cons := fun c =>
         if c.id ∈ idl then { (c.removeStreamAssignments s) with streams := c.streams.filter (· ≠ s) } else c
       have fid : ∀ c, (f c).id = c.id := by
@@ -1528,7 +1565,16 @@ theorem sinv_streamDeleted (parts : String → Nat) (s : String) (g g' : Group) 
         intro hne
         rw [h.subsOnly t hne] at hg; simp at hg
       subst hts
-      simp only [hg, Res.ok.injEq] at hs
+      simp only [hg] at hs
+      by_cases hb : (Gen.Groups.emptyHeapKeepsEpoch && idl.isEmpty) = true
+      · -- empty heap: only the heap entry is dropped
+        simp only [hb, if_true, Res.ok.injEq] at hs
+        rw [← hs]
+        refine ⟨?_, h.streams, h.count, h.within⟩
+        intro u hu
+        show sget (sdel g.subs t) u = none
+        rw [sget_sdel]; simp [hu, h.subsOnly u hu]
+      simp only [hb, Bool.false_eq_true, if_false, Res.ok.injEq] at hs
       let f : Cons → Cons := fun c =>
         if c.id ∈ idl then { (c.removeStreamAssignments t) with streams := c.streams.filter (· ≠ t) } else c
       have hsub : subsOf' g.subs t = idl := by simp [subsOf', hg]
